@@ -155,7 +155,9 @@ def run(ctx: Ctx) -> int:
         def tcp(loop, net, refuse=refuse):
             if refuse:
                 net.connect_mode = "refuse"
-        v = disc.run_discovery(plan, tcp_devices=tcp, timeout=[5, 1, 2, 0.8][len(vectors) % 4])     # the listen window is the caller's choice
+        # the listen window and the target (limited broadcast, a directed subnet broadcast, a multicast group) are the caller's choice: several hosts answer each
+        tgt = ["255.255.255.255", "10.255.255.255", "255.255.255.255", "192.168.1.255", "224.0.0.251"][len(vectors) % 5]
+        v = disc.run_discovery(plan, tcp_devices=tcp, timeout=[5, 1, 2, 0.8][len(vectors) % 4], target=tgt)
         v.pop("devices", None)
         v["bad_kinds"] = kinds
         vectors.append(v)
